@@ -170,4 +170,209 @@ theorem code_threshold (c : Comparator) (t : X Rat) (rs : List (Rule Rat)) :
     · rw [(Prod.mk.inj h2).1]; simp [snds]; rfl
     · rw [(Prod.mk.inj h2).2]; simp; rfl
 
+/-! ## Highest / Lowest -/
+
+/-- `enumerate` of rules that are paired with their positions: the index is the position -/
+theorem enumerate_enum {β : Type} : ∀ (k : Nat) (rs : List β),
+    ((enum k rs).zipIdx k).map (fun p => (p.2, p.1)) = (enum k rs).map (fun v => (v.1, v))
+  | _, [] => rfl
+  | k, x :: xs => by simp [enum, List.zipIdx_cons, enumerate_enum (k + 1) xs]
+
+theorem pyEnumerate_enum {β : Type} (rs : List β) : Py.enumerate (enum 0 rs) = (enum 0 rs).map (fun v => (v.1, v)) :=
+  enumerate_enum 0 rs
+
+/-- what the first loop of the model returns: one visited rule per rule, heap entries carry positions of the rules -/
+theorem pushLoop_inv (key : X Rat → X Rat) : ∀ (l : List (Visit Rat)) (heap : List (X Rat × Nat))
+    (q : List (Visit Rat) × List (X Rat × Nat)), pushLoop key heap l = .ok q →
+    q.1.length = l.length ∧ ∀ x ∈ q.2, x ∈ heap ∨ ∃ v ∈ l, x.2 = v.1
+  | [], heap, q, h => by
+    simp only [pushLoop, Except.ok.injEq] at h
+    subst h; simp
+  | (i, r) :: rest, heap, q, h => by
+    simp only [pushLoop] at h
+    split at h
+    · split at h
+      · cases h
+      · split at h
+        · cases hq : pushLoop key (heappush heap (key (activateWith (deactivate r)).actDegree, i)) rest with
+          | error e => rw [hq] at h; cases h
+          | ok q' =>
+            rw [hq] at h; simp only [Except.map, Except.ok.injEq] at h; subst h
+            obtain ⟨h1, h2⟩ := pushLoop_inv key rest _ q' hq
+            refine ⟨by simp [h1], fun x hx => ?_⟩
+            rcases h2 x hx with hm | ⟨v, hv, hxv⟩
+            · rcases List.mem_cons.1 ((insertBy_perm _ _ _).mem_iff.1 hm) with hm' | hm'
+              · exact Or.inr ⟨(i, r), by simp, by rw [hm']⟩
+              · exact Or.inl hm'
+            · exact Or.inr ⟨v, by simp [hv], hxv⟩
+        · cases hq : pushLoop key heap rest with
+          | error e => rw [hq] at h; cases h
+          | ok q' =>
+            rw [hq] at h; simp only [Except.map, Except.ok.injEq] at h; subst h
+            obtain ⟨h1, h2⟩ := pushLoop_inv key rest _ q' hq
+            refine ⟨by simp [h1], fun x hx => ?_⟩
+            rcases h2 x hx with hm | ⟨v, hv, hxv⟩
+            · exact Or.inl hm
+            · exact Or.inr ⟨v, by simp [hv], hxv⟩
+    · cases hq : pushLoop key heap rest with
+      | error e => rw [hq] at h; cases h
+      | ok q' =>
+        rw [hq] at h; simp only [Except.map, Except.ok.injEq] at h; subst h
+        obtain ⟨h1, h2⟩ := pushLoop_inv key rest _ q' hq
+        refine ⟨by simp [h1], fun x hx => ?_⟩
+        rcases h2 x hx with hm | ⟨v, hv, hxv⟩
+        · exact Or.inl hm
+        · exact Or.inr ⟨v, by simp [hv], hxv⟩
+
+theorem code_pushLoop_high (rules : List (Visit Rat)) (n : Nat) : ∀ (l : List (Visit Rat)) (σ : Highest_activate.S),
+    (Highest_activate.loop1 rules n (l.map (fun v => (v.1, v))) σ).map
+        (fun σ' => (σ'.visited, σ'.activate, σ'.fires, σ'.activated))
+      = lift ((pushLoop X.neg σ.activate l).map (fun q => (σ.visited ++ q.1, q.2, σ.fires, σ.activated)))
+  | [], σ => by simp [Highest_activate.loop1, pushLoop, Except.map]
+  | (i, r) :: rest, σ => by
+    simp only [List.map_cons, Highest_activate.loop1, pushLoop]
+    cases h : (deactivate r).loaded <;> simp only [Bool.false_eq_true, if_false, if_true]
+    · rw [code_pushLoop_high rules n rest, lift_map_map]; simp [List.append_assoc]
+    · cases hv : (activateWith (deactivate r)).vector <;>
+        simp only [Bool.false_eq_true, if_false, if_true, bind, Except.bind]
+      · cases hc : X.lt (.fin 0) (activateWith (deactivate r)).actDegree <;>
+          simp only [Bool.false_eq_true, if_false, if_true] <;>
+          rw [code_pushLoop_high rules n rest, lift_map_map] <;> simp [List.append_assoc]
+      · rfl
+
+/-- `rules[index].trigger(implication)` on the visited rules is `triggerAt id` of the model on their states -/
+theorem pyTriggerAt_id (vis : List (Visit Rat)) (fires : List (Fire Rat)) (idx : Nat) (h : idx < vis.length) :
+    ∃ vis', Py.Act.triggerAt vis fires idx = .ok (vis', fires ++ (triggerAt id idx (snds vis)).2) ∧
+      snds vis' = (triggerAt id idx (snds vis)).1 ∧ vis'.length = vis.length := by
+  have hs : (snds vis)[idx]? = some (vis[idx]).2 := by simp [snds, h]
+  refine ⟨vis.set idx ((vis[idx]).1, (trigger idx (vis[idx]).2).1), ?_, ?_, by simp⟩
+  · simp only [Py.Act.triggerAt, List.getElem?_eq_getElem h, triggerAt, hs, id]
+  · simp only [triggerAt, hs, id]
+    simp only [snds, List.map_set]
+
+theorem code_popLoop_high (rules : List (Visit Rat)) (n : Nat) : ∀ (fuel : Nat) (σ : Highest_activate.S),
+    σ.activate.length < fuel → (∀ x ∈ σ.activate, x.2 < σ.visited.length) →
+    (Highest_activate.loop2 rules n fuel σ).map (fun σ' => (snds σ'.visited, σ'.fires))
+      = .ok ((popLoop n σ.activated σ.activate (snds σ.visited)).1,
+             σ.fires ++ (popLoop n σ.activated σ.activate (snds σ.visited)).2)
+  | 0, σ, hf, _ => absurd hf (Nat.not_lt_zero _)
+  | fuel + 1, σ, hf, hb => by
+    simp only [Highest_activate.loop2]
+    cases hA : σ.activate with
+    | nil => simp [popLoop, Except.map]
+    | cons x heap =>
+      rw [hA] at hf hb
+      by_cases hk : σ.activated < n
+      · simp only [List.isEmpty_cons, Bool.not_false, Bool.true_and, hk, decide_true, if_true, Py.popTop_cons, bind,
+          Except.bind, popLoop]
+        obtain ⟨vis', h1, h2, h3⟩ := pyTriggerAt_id σ.visited σ.fires x.2 (hb x (by simp))
+        simp only [h1]
+        rw [code_popLoop_high rules n fuel]
+        · simp [h2, List.append_assoc]
+        · simp at hf ⊢; omega
+        · intro y hy; simp only [h3]; exact hb y (by simp at hy; simp [hy])
+      · simp [hk, popLoop, Except.map]
+
+theorem enum_fst_lt {β : Type} {rs : List β} {v : Nat × β} (h : v ∈ enum 0 rs) : v.1 < rs.length := by
+  obtain ⟨_, h2⟩ := mem_enum (i := v.1) (x := v.2) h
+  obtain ⟨hlt, _⟩ := List.getElem?_eq_some_iff.1 h2
+  simpa using hlt
+
+theorem default_list {β : Type} : (default : List β) = [] := rfl
+
+theorem code_highest (n : Nat) (rs : List (Rule Rat)) :
+    match activate (.highest n) rs with
+    | .error e => Highest_activate.run (enum 0 rs) n {} = .error e.toPy
+    | .ok o => ∃ σ, Highest_activate.run (enum 0 rs) n {} = .ok σ ∧ σ.visited.map (·.2) = o.rules ∧
+        σ.fires = o.fires := by
+  have h := code_pushLoop_high (enum 0 rs) n (enum 0 rs) { activate := [] }
+  simp only [activate, Highest_activate.run, bind_ok_self, pyEnumerate_enum]
+  cases hc : pushLoop X.neg [] (enum 0 rs) with
+  | error e => rw [hc] at h; rw [agree_error h]; rfl
+  | ok q =>
+    rw [hc] at h
+    obtain ⟨σ, h1, h2⟩ := agree_ok h
+    obtain ⟨i1, i2⟩ := pushLoop_inv X.neg _ _ q hc
+    simp only [Prod.mk.injEq, default_list, List.nil_append] at h2
+    obtain ⟨v1, v2, v3, v4⟩ := h2
+    rw [h1]; simp only [bind, Except.bind]
+    have h3 := code_popLoop_high (enum 0 rs) n (σ.activate.length + 1) { σ with activated := 0 } (Nat.lt_succ_self _)
+      (by
+        intro x hx
+        simp only [v1, v2] at hx ⊢
+        rcases i2 x hx with hm | ⟨v, hv, hxv⟩
+        · cases hm
+        · rw [i1, hxv, enum_length]; exact enum_fst_lt hv)
+    obtain ⟨σ', g1, g2⟩ := agree_ok (a := (_, _)) h3
+    refine ⟨σ', g1, ?_, ?_⟩
+    · have := (Prod.mk.inj g2).1; simp only [snds] at this; rw [this]; simp [v1, v2, snds]
+    · rw [(Prod.mk.inj g2).2]; simp [v1, v2, v3, snds]
+
+theorem code_pushLoop_low (rules : List (Visit Rat)) (n : Nat) : ∀ (l : List (Visit Rat)) (σ : Lowest_activate.S),
+    (Lowest_activate.loop1 rules n (l.map (fun v => (v.1, v))) σ).map
+        (fun σ' => (σ'.visited, σ'.activate, σ'.fires, σ'.activated))
+      = lift ((pushLoop id σ.activate l).map (fun q => (σ.visited ++ q.1, q.2, σ.fires, σ.activated)))
+  | [], σ => by simp [Lowest_activate.loop1, pushLoop, Except.map]
+  | (i, r) :: rest, σ => by
+    simp only [List.map_cons, Lowest_activate.loop1, pushLoop]
+    cases h : (deactivate r).loaded <;> simp only [Bool.false_eq_true, if_false, if_true]
+    · rw [code_pushLoop_low rules n rest, lift_map_map]; simp [List.append_assoc]
+    · cases hv : (activateWith (deactivate r)).vector <;>
+        simp only [Bool.false_eq_true, if_false, if_true, bind, Except.bind]
+      · cases hc : X.lt (.fin 0) (activateWith (deactivate r)).actDegree <;>
+          simp only [Bool.false_eq_true, if_false, if_true] <;>
+          rw [code_pushLoop_low rules n rest, lift_map_map] <;> simp [List.append_assoc]
+      · rfl
+
+theorem code_popLoop_low (rules : List (Visit Rat)) (n : Nat) : ∀ (fuel : Nat) (σ : Lowest_activate.S),
+    σ.activate.length < fuel → (∀ x ∈ σ.activate, x.2 < σ.visited.length) →
+    (Lowest_activate.loop2 rules n fuel σ).map (fun σ' => (snds σ'.visited, σ'.fires))
+      = .ok ((popLoop n σ.activated σ.activate (snds σ.visited)).1,
+             σ.fires ++ (popLoop n σ.activated σ.activate (snds σ.visited)).2)
+  | 0, σ, hf, _ => absurd hf (Nat.not_lt_zero _)
+  | fuel + 1, σ, hf, hb => by
+    simp only [Lowest_activate.loop2]
+    cases hA : σ.activate with
+    | nil => simp [popLoop, Except.map]
+    | cons x heap =>
+      rw [hA] at hf hb
+      by_cases hk : σ.activated < n
+      · simp only [List.isEmpty_cons, Bool.not_false, Bool.true_and, hk, decide_true, if_true, Py.popTop_cons, bind,
+          Except.bind, popLoop]
+        obtain ⟨vis', h1, h2, h3⟩ := pyTriggerAt_id σ.visited σ.fires x.2 (hb x (by simp))
+        simp only [h1]
+        rw [code_popLoop_low rules n fuel]
+        · simp [h2, List.append_assoc]
+        · simp at hf ⊢; omega
+        · intro y hy; simp only [h3]; exact hb y (by simp at hy; simp [hy])
+      · simp [hk, popLoop, Except.map]
+
+theorem code_lowest (n : Nat) (rs : List (Rule Rat)) :
+    match activate (.lowest n) rs with
+    | .error e => Lowest_activate.run (enum 0 rs) n {} = .error e.toPy
+    | .ok o => ∃ σ, Lowest_activate.run (enum 0 rs) n {} = .ok σ ∧ σ.visited.map (·.2) = o.rules ∧
+        σ.fires = o.fires := by
+  have h := code_pushLoop_low (enum 0 rs) n (enum 0 rs) { activate := [] }
+  simp only [activate, Lowest_activate.run, bind_ok_self, pyEnumerate_enum]
+  cases hc : pushLoop id [] (enum 0 rs) with
+  | error e => rw [hc] at h; rw [agree_error h]; rfl
+  | ok q =>
+    rw [hc] at h
+    obtain ⟨σ, h1, h2⟩ := agree_ok h
+    obtain ⟨i1, i2⟩ := pushLoop_inv id _ _ q hc
+    simp only [Prod.mk.injEq, default_list, List.nil_append] at h2
+    obtain ⟨v1, v2, v3, v4⟩ := h2
+    rw [h1]; simp only [bind, Except.bind]
+    have h3 := code_popLoop_low (enum 0 rs) n (σ.activate.length + 1) { σ with activated := 0 } (Nat.lt_succ_self _)
+      (by
+        intro x hx
+        simp only [v1, v2] at hx ⊢
+        rcases i2 x hx with hm | ⟨v, hv, hxv⟩
+        · cases hm
+        · rw [i1, hxv, enum_length]; exact enum_fst_lt hv)
+    obtain ⟨σ', g1, g2⟩ := agree_ok (a := (_, _)) h3
+    refine ⟨σ', g1, ?_, ?_⟩
+    · have := (Prod.mk.inj g2).1; simp only [snds] at this; rw [this]; simp [v1, v2, snds]
+    · rw [(Prod.mk.inj g2).2]; simp [v1, v2, v3, snds]
+
 end Op.Activation
